@@ -75,6 +75,7 @@ type FuncCtx struct {
 	specFnHeaps    map[string][]HeapKey // heaps a spec function's body reads: hidden parameters
 	immutKeys      map[string]string    // heap name -> Type.field of declared immutable fields (immutable.go)
 	tracked        []string             // names N with calls(N) in the root contract (callassert.go)
+	lastHavocBase  *State                  // the base state created by the latest havocAll (before local objects are copied back)
 	callPre        map[string]*State       // state in which the latest call of NAME started (before(NAME, E))
 	callPreArgs    map[string][]Val        // ... and its actual arguments (arg0, arg1, ... inside before())
 	preRet         map[ssa.Instruction]Val // placeholders for results of calls translated later (speceval.go preReturned)
